@@ -1900,8 +1900,9 @@ def _name_lengths(fn: ast.FunctionDef):
         first = next((i for i, s_ in enumerate(blk) if count(s_)), None)
         if first is None:
             continue
-        if x in params and blk is fn.body and any(unconditional(s_) for s_ in blk):
-            # a parameter whose length the function evaluates on its main path: name it once, at the top
+        if x in params:
+            # the length of an array parameter: named once, at the top of the function
+            blk = fn.body
             first = 1 if (fn.body and isinstance(fn.body[0], ast.Expr) and isinstance(fn.body[0].value, ast.Constant)
                           and isinstance(fn.body[0].value.value, str)) else 0
         elif not unconditional(blk[first]):
